@@ -307,8 +307,20 @@ pub fn run_dec_check(ctx: &Ctx, check: &DecCheck) -> Stats {
                             _ => stream.push(c),
                         }
                     }
+                    // k % 3 selects the spacing: copies back to back, or each followed by 1 or 3 ASCII
+                    // letters (a short word after every special unit, over and over: heuristics that
+                    // count consecutive bail-outs of a fast path only wake up on such text)
+                    let gap = [0usize, 1, 3][(k + p) % 3];
                     for _ in 0..k {
                         stream.extend_from_slice(a);
+                        for g in 0..gap {
+                            let c = b'b' + g as u8;
+                            match algo {
+                                Algo::Utf16(true) => stream.extend_from_slice(&[0, c]),
+                                Algo::Utf16(false) => stream.extend_from_slice(&[c, 0]),
+                                _ => stream.push(c),
+                            }
+                        }
                     }
                     stream.extend_from_slice(if is16 { if algo == Algo::Utf16(true) { b"\x00z" } else { b"z\x00" } } else { b"z" });
                     for &sink in &check.sinks {
@@ -334,7 +346,7 @@ pub fn run_dec_check(ctx: &Ctx, check: &DecCheck) -> Stats {
         }
     });
     total.merge(st);
-    total.exhaustive.push("uniform-run family: 15/16/17/32/33 copies of each non-ASCII atom after 0 or 3 ASCII units x sinks x modes x capacities {minimum, +1, +3, 15, 16, 17, 24, 47, minimum then 33}".into());
+    total.exhaustive.push("uniform-run family: 15/16/17/32/33 copies of each non-ASCII atom (back to back, or each followed by 1 or 3 ASCII letters) after 0 or 3 ASCII units x sinks x modes x capacities {minimum, +1, +3, 15, 16, 17, 24, 47, minimum then 33}".into());
     if fw::should_stop() {
         return total;
     }
